@@ -1260,7 +1260,7 @@ const scopeSingle = "enumerated: every map in which each of the keys 0..3 (thoro
 const scopeRandom = "random: up to 20 pairs over keys -4..19 and values 0..5 (a repeated key overwrites), predicate sets drawn from the same ranges. "
 const scopeColl = "enumerated: every collection of 0..2 maps over 4 keys x 3 values and every collection of 3 maps over 3 keys x 2 values (thorough: 4 keys x 2 values), "
 const scopeRuns = "Every case is executed 3 times on fresh maps built in 3 insertion orders (Go randomises the iteration start). " +
-	"Distinct = enumerated cases (injective encoding) + hash-distinct random cases with a key or value outside the enumerated domain."
+	"Distinct = enumerated cases (injective encoding) + hash-distinct random cases outside the enumerated scope (a key or value outside its domain, or a longer collection)."
 
 func TestProp(t *testing.T) {
 	pbt.Run(t, "C14",
